@@ -2102,7 +2102,7 @@ class FlagsEnum(Adapter):
     def _emitseq(self, ksy, bitwise):
         bitstotal = self.subcon.sizeof() * 8
         seq = []
-        for i in range(bitstotal):
+        for i in reversed(range(bitstotal)):
             value = 1<<i
             name = self.reverseflags.get(value, "unknown_%s" % i)
             seq.append(dict(id=name, type="b1", doc=hex(value), _construct_render="Flag"))
